@@ -60,8 +60,10 @@ OnEnd == /\ Ev.e = "End"
 OnLatency == /\ Ev.e = "TellLatency"
              /\ bad' = IF Ev.m > 50000 \/ Ev.n > 100000 THEN Flag("TellReturnsPromptly") ELSE bad
              /\ UNCHANGED <<sent, got, asked, replied, dls>>
-OnOther == Ev.e \notin {"Reset", "Sent", "Recv", "Replied", "DLocal", "End", "TellLatency"} /\ UNCHANGED <<bad, sent, got, asked, replied, dls>>
-Next == l <= Len(TLog) /\ l' = l + 1 /\ (OnLatency \/ OnReset \/ OnSent \/ OnRecv \/ OnReplied \/ OnDLocal \/ OnEnd \/ OnOther)
+(* Accept v: a connection whose handshake bytes are valid was accepted (1) or refused (0) by the receiving side *)
+OnAccept == Ev.e = "Accept" /\ bad' = (IF Ev.v # 1 THEN Flag("ValidConnectionAccepted") ELSE bad) /\ UNCHANGED <<sent, got, asked, replied, dls>>
+OnOther == Ev.e \notin {"Reset", "Sent", "Recv", "Replied", "DLocal", "End", "TellLatency", "Accept"} /\ UNCHANGED <<bad, sent, got, asked, replied, dls>>
+Next == l <= Len(TLog) /\ l' = l + 1 /\ (OnLatency \/ OnReset \/ OnSent \/ OnRecv \/ OnReplied \/ OnDLocal \/ OnEnd \/ OnAccept \/ OnOther)
 Spec == Init /\ [][Next]_vars
 Ok == bad = ""
 Accepted == TLCGet("stats").diameter - 1 = Len(TLog)
